@@ -111,3 +111,14 @@ Ltac guard_tac :=
   cbv beta delta [hyper_guard binom_guard];
   apply Bool.eq_true_iff_eq;
   repeat rewrite Bool.orb_true_iff; repeat rewrite Nat.ltb_lt; repeat rewrite Nat.leb_le; lia.
+
+(* ---- control conditions (obligations G7): booleans built from Qle_bool / Nat.ltb atoms.  Every atom is decided
+   (reflecting it into a proposition), the goal is then closed by computation or, in impossible cases, by lra ---- *)
+Ltac cond_tac :=
+  repeat match goal with
+         | |- context [Qle_bool ?a ?b] =>
+             let E := fresh "E" in destruct (Qle_bool a b) eqn:E;
+             [apply Qle_bool_iff in E | apply Bool.not_true_iff_false in E; rewrite Qle_bool_iff in E]
+         | |- context [Nat.ltb ?a ?b] => destruct (Nat.ltb a b)
+         end;
+  cbn; try reflexivity; exfalso; lra.
